@@ -2,6 +2,7 @@ package main
 
 import (
 	"fmt"
+	"go/token"
 	"go/types"
 	"strings"
 
@@ -149,6 +150,15 @@ func (fr *Frame) callInner(in ssa.Instruction, cc *ssa.CallCommon, res ssa.Value
 				if n, ok := t.(*types.Named); ok {
 					qual = n.Obj().Name() + "." + name
 				}
+			}
+		} else if u, ok := cc.Value.(*ssa.UnOp); ok && u.Op == token.MUL {
+			// a call through a function-typed variable (a closure kept in a local or captured
+			// variable): guards and called() name the variable
+			switch v := u.X.(type) {
+			case *ssa.FreeVar:
+				name = v.Name()
+			case *ssa.Alloc:
+				name = v.Comment
 			}
 		}
 		fr.pendingCall = []string{name, qual}
